@@ -239,7 +239,9 @@ func (e *specEnv) loadField(ref T, st types.Type, idx int) sval {
 	get := func(k string, so Sort) T { return Select(e.heapOf(k, SArray(SInt, so)), ref, so) }
 	if isSlice(ft) {
 		is := x.intSort()
-		return sval{v: Val{K: vSlice, Arr: get(key+"#a", SInt), Off: get(key+"#o", is), Len: get(key+"#l", is), Cap: get(key+"#c", is), Typ: ft}, typ: ft}
+		sv := Val{K: vSlice, Arr: get(key+"#a", SInt), Off: get(key+"#o", is), Len: get(key+"#l", is), Cap: get(key+"#c", is), Typ: ft}
+		x.assumeSliceWF(e.s, sv)
+		return sval{v: sv, typ: ft}
 	}
 	r := scalar(get(key, x.sortOf(ft)))
 	if it, ok := ft.Underlying().(*types.Interface); ok && it.NumMethods() > 0 && !e.old && x.fnc != nil && x.fnc.Theory {
@@ -325,6 +327,10 @@ func (e *specEnv) lookup(name string) (sval, bool) {
 		t := typeOfName()
 		if t == nil {
 			return sval{}, false
+		}
+		if _, isStruct := t.Underlying().(*types.Struct); isStruct && a.K == vScalar {
+			// a struct-typed local whose address is taken: denote it by its address
+			return sval{v: a, typ: types.NewPointer(t)}, true
 		}
 		if e.old {
 			return sval{v: e.x.loadOld(e, a, t), typ: t}, true
@@ -1054,6 +1060,34 @@ func (e *specEnv) evalCall(n *ast.CallExpr) (sval, error) {
 			return sval{v: scalar(t)}, nil
 		}
 	}
+	// a package function declared `pure` can be used in specifications
+	if pf := x.p.Funcs[name]; pf != nil {
+		if pc := x.p.Ctr.Funcs[name]; pc != nil && pc.Pure && pf.Signature.Results().Len() == 1 {
+			var ts []T
+			sig := "("
+			for i := range n.Args {
+				a, err := e.eval(n.Args[i])
+				if err != nil {
+					return sval{}, err
+				}
+				want := x.sortOf(pf.Signature.Params().At(i).Type())
+				t, err := e.coerceTo(a, want)
+				if err != nil {
+					return sval{}, err
+				}
+				if i > 0 {
+					sig += " "
+				}
+				sig += string(t.Sort)
+				ts = append(ts, t)
+			}
+			rt := pf.Signature.Results().At(0).Type()
+			rs := x.sortOf(rt)
+			fn := "pure!" + sanitize(name)
+			x.declFun(e.s, fn, sig+") "+string(rs))
+			return sval{v: scalar(mk(rs, fn, ts...)), typ: rt}, nil
+		}
+	}
 	// contract-level macro
 	if d, ok := x.p.Ctr.Defines[name]; ok {
 		if len(d.Params) != len(n.Args) {
@@ -1127,6 +1161,8 @@ func (e *specEnv) coerceTo(a sval, want Sort) (T, error) {
 			return e.coerce(a, sval{v: scalar(T{"0", SInt})})
 		case SBV64:
 			return BVLit(uint64(a.lit.Int64()), 64), nil
+		case SBV32:
+			return BVLit(uint64(a.lit.Int64()), 32), nil
 		case SFloat:
 			f, _ := new(big.Float).SetInt(a.lit).Float64()
 			return FloatLit(f), nil
